@@ -205,9 +205,11 @@ func Family(name string, tier string) []*Scenario {
 		}
 		out = append(out, fourVertexSingleFault(thorough)...)
 		out = append(out, fiveVertexFaults(thorough)...)
+		out = append(out, bufferedFaults(thorough)...)
 	case "C14":
 		out = append(out, fourVertexSingleFault(thorough)...)
 		out = append(out, fiveVertexFaults(thorough)...)
+		out = append(out, bufferedFaults(thorough)...)
 		for n := 1; n <= 3; n++ {
 			for _, es := range AllDAGs(n) {
 				for _, scr := range assignments(n, []string{"ok", "err", "skip"}) {
@@ -321,6 +323,53 @@ func Family(name string, tier string) []*Scenario {
 				}
 			}
 		}
+		// a failing or skipping task must not loosen the bound
+		for _, sc := range fourVertexSingleFault(thorough) {
+			for _, mode := range []string{"serial", "max1", "max2"} {
+				if mode == "max2" && !thorough {
+					continue
+				}
+				c := *sc
+				c.Mode = mode
+				if !thorough {
+					c.Light = 2 // default schedule, all completion orders
+				}
+				out = append(out, &c)
+			}
+		}
+		for n := 2; n <= 3; n++ {
+			for _, es := range AllDAGs(n) {
+				for _, scr := range assignments(n, []string{"ok", "err", "skip"}) {
+					if !relevant(n, es, scr) {
+						continue
+					}
+					allOK := true
+					for _, s := range scr {
+						if s[0] != "ok" {
+							allOK = false
+						}
+					}
+					if allOK {
+						continue
+					}
+					for _, mode := range []string{"serial", "max1"} {
+						out = append(out, GraphScenario(n, es, scr, nil, mode))
+					}
+				}
+			}
+		}
+		// very large task output with buffering
+		for n := 2; n <= 3; n++ {
+			scr := make([][]string, n)
+			for i := range scr {
+				scr[i] = []string{"ok"}
+			}
+			sc := GraphScenario(n, nil, scr, nil, "par")
+			sc.Buffer = true
+			sc.BigOutput = true
+			sc.Light = 1 // each execution moves 160 KiB around: at most one deviation
+			out = append(out, sc)
+		}
 		// cancellation while tasks wait for a slot
 		for n := 2; n <= 3; n++ {
 			for _, es := range AllDAGs(n) {
@@ -396,7 +445,7 @@ func Family(name string, tier string) []*Scenario {
 		alpha := []Call{
 			{"add", 0, 0}, {"add", 1, 0}, {"add", 2, 0},
 			{"dep", 0, 1}, {"dep", 1, 2}, {"dep", 0, 2}, {"dep", 1, 0}, {"dep", 0, 0},
-			{"retries", 0, 1},
+			{"retries", 0, 1}, {"retries", 0, -1},
 		}
 		var rec func(h []Call)
 		rec = func(h []Call) {
@@ -404,6 +453,18 @@ func Family(name string, tier string) []*Scenario {
 				sc := &Scenario{N: 3, Hist: append([]Call(nil), h...), Mode: "par", History: true}
 				sc.Scripts = [][]string{{"ok"}, {"ok"}, {"ok"}}
 				out = append(out, sc)
+				hasRetries := false
+				for _, c := range h {
+					if c.Op == "retries" {
+						hasRetries = true
+					}
+				}
+				if hasRetries {
+					// the same history with a task that always fails
+					sc2 := &Scenario{N: 3, Hist: append([]Call(nil), h...), Mode: "par", History: true}
+					sc2.Scripts = [][]string{{"err"}, {"ok"}, {"ok"}}
+					out = append(out, sc2)
+				}
 			}
 			if len(h) == depth {
 				return
@@ -448,7 +509,7 @@ func edgeKey(n int, es [][2]int) string {
 func fourVertexSingleFault(thorough bool) []*Scenario {
 	var out []*Scenario
 	for _, es := range AllDAGs(4) {
-		if len(es) < 2 {
+		if len(es) < 1 {
 			continue
 		}
 		for v := 0; v < 4; v++ {
@@ -513,6 +574,51 @@ func fiveVertexFaults(thorough bool) []*Scenario {
 						add(scr2)
 					}
 				}
+			}
+		}
+	}
+	return out
+}
+
+// bufferedFaults: output buffering switched on together with failing / skipping / retried tasks.
+func bufferedFaults(thorough bool) []*Scenario {
+	var out []*Scenario
+	for n := 1; n <= 3; n++ {
+		for _, es := range AllDAGs(n) {
+			for _, scr := range assignments(n, []string{"ok", "err", "skip"}) {
+				if !relevant(n, es, scr) {
+					continue
+				}
+				bad := 0
+				for _, s := range scr {
+					if s[0] != "ok" {
+						bad++
+					}
+				}
+				if bad != 1 {
+					continue
+				}
+				for _, mode := range []string{"par", "serial"} {
+					if mode == "serial" && n == 3 && !thorough {
+						continue
+					}
+					sc := GraphScenario(n, es, scr, nil, mode)
+					sc.Buffer = true
+					out = append(out, sc)
+				}
+			}
+			// a retried task with buffering
+			if n <= 2 || len(es) <= 1 {
+				scr := make([][]string, n)
+				for i := range scr {
+					scr[i] = []string{"ok"}
+				}
+				scr[n-1] = []string{"err", "ok"}
+				ret := make([]int, n)
+				ret[n-1] = 1
+				sc := GraphScenario(n, es, scr, ret, "par")
+				sc.Buffer = true
+				out = append(out, sc)
 			}
 		}
 	}
